@@ -519,7 +519,7 @@ FLEET['G18'] = dict(
         ('prog', ['prog', 'stmt'], 'plain'),
         ('args', ['args', 'comma', 'x'], 'plain'),
     ],
-    values=['node', 'mnode'],
+    values=['node', 'mnode', 'anode'],
 )
 
 # two items of one state share a closure item (A -> . a, y is reached from S -> . A y and from T -> . A y): whatever the
